@@ -8,16 +8,42 @@ Layer B: the model IS the source through T-std; T-std is validated (TESTING) by 
          evaluated here in Python.
 Layer C: monitor_compiled() — compiled driver programs in a wasm engine — is added by a later step.
 """
+import filecmp
 import json
 import os
 import re
+import shutil
 
-from lib.vlib import COQ, Check, check_props, coq_eval_many, coq_make, parse_props, vh
+from lib.vlib import COQ, WORK, Check, check_props, coq_eval_many, coq_make, parse_props, vh
 
 PID = 'C18'
 GEN = os.path.join(COQ, 'generated')
 EXPECTED_SKIPS = {'Int.toString'}          # members T-std is known not to translate (Str builtins)
 MODULES = ['StdPrelude', 'StdInterfaces', 'StdTuples', 'StdOption', 'StdBoxed', 'StdList', 'StdResult', 'StdMap', 'StdSet']
+
+
+def generate():
+    """T-std: (re)write /verif/coq/generated/Std*.v from /repo/std/*.sam through `vh std-dump`.
+    Idempotent: a file whose content did not change is not rewritten (so make does not rebuild needlessly).
+    Returns (rc, translator output, list of files whose content changed)."""
+    os.makedirs(GEN, exist_ok=True)
+    tmp = os.path.join(WORK, 'c18_gen')
+    shutil.rmtree(tmp, ignore_errors=True)
+    os.makedirs(tmp, exist_ok=True)
+    # VERIF_C18_STD: test hook, translate a copy of the std directory (used to check that a changed library
+    # makes this check fail) instead of /repo/std
+    alt = os.environ.get('VERIF_C18_STD')
+    rc, out = vh(['std-dump', tmp] + ([alt] if alt else []))
+    changed = []
+    if rc == 0:
+        for fn in sorted(os.listdir(tmp)):
+            if not fn.endswith('.v'):
+                continue
+            src, dst = os.path.join(tmp, fn), os.path.join(GEN, fn)
+            if not os.path.exists(dst) or not filecmp.cmp(src, dst, shallow=False):
+                shutil.copyfile(src, dst)
+                changed.append(fn)
+    return rc, out, changed
 
 
 # ----------------------------------------------------------------------------- PRNG (splitmix64)
@@ -583,6 +609,27 @@ def run_fixed_inputs(ck, inputs, tag):
                                 how='./check C18 --replay <this file>')
 
 
+def shrink(kind, ops, rounds=12):
+    """greedy one-operation-at-a-time shrinking of a failing sequence; every round is one batch of coqc runs"""
+    ops = list(ops)
+    for _ in range(rounds):
+        cands = [ops[:j] + ops[j + 1:] for j in range(len(ops) - 1)]
+        if not cands:
+            break
+        obs, errs = evaluate([(kind, c) for c in cands], 'shrink')
+        if errs:
+            break
+        nxt = None
+        for j, c in enumerate(cands):
+            if obs.get(j) is not None and obs.get(j) != SPECS[kind](c):
+                nxt = c
+                break
+        if nxt is None:
+            break
+        ops = nxt
+    return ops
+
+
 def monitor_compiled(ck, tier, seed):
     """Layer C (compiled driver programs run in a wasm engine, output compared with the sorted-list
     specification).  NOT BUILT YET: a later step fills this in; it is a no-op for now."""
@@ -627,15 +674,20 @@ def run(tier, seed, replay=None):
     ]
     ck.assumptions = [
         'compare is a strict total order as computed (cmp_order: cmp a b = 0 <-> a = b, sign antisymmetry, transitivity); '
-        'proved for boxed Int on any key range in which a - b does not overflow',
-        '`==` oracle soundness: phys_eq a b = true -> a = b (needed because insert/remove/update/filter return `this` when a '
-        'recursive result is `==` to the old subtree)',
-        'explicit fuel bounds in every theorem (fuel >= height + constant); trees satisfy the AVL and BST invariants',
+        'proved for boxed Int with the 32-bit a - b on every window of keys of width 2^31 (C18_int_compare_is_order), '
+        'and shown to fail on all of int32 (C18_int_compare_overflow_not_transitive)',
+        '`==` oracle soundness: phys_eq a b = true -> a = b (needed by insert/remove/update/filter/union/map, which return '
+        '`this` when a recursive result is `==` to the old subtree); theorems that do not need it do not assume it',
+        'closures passed to the library are total: f x = Ok (g x) for a Gallina function g',
+        'every theorem carries an explicit fuel bound: height + constant for single-tree operations, 2*(h1+h2)+constant for '
+        'union/intersection/difference/merge, number of bindings + height for compare/equal, 4*size+16 for Set.map, '
+        'length + constant for List; trees satisfy the AVL (stored heights, balance <= 2) and search-tree invariants, '
+        'which every operation is proved to preserve',
     ]
 
     # (i)+(ii) regenerate the model from the sources
-    os.makedirs(GEN, exist_ok=True)
-    rc, out = vh(['std-dump', GEN])
+    rc, out, changed = generate()
+    ck.extra_cov['generated_files_changed_since_last_run'] = changed
     skipped = re.findall(r'^SKIPPED (\S+): (.*)$', out, re.M)
     emitted = re.findall(r'^EMITTED (\S+)$', out, re.M)
     ck.obligation('T-std translates std/*.sam', rc == 0 and len(emitted) > 0, out[-600:] if rc != 0 else '%d members emitted' % len(emitted))
@@ -649,7 +701,7 @@ def run(tier, seed, replay=None):
     gen_files = ['generated/%s.v' % m for m in MODULES if os.path.exists(os.path.join(GEN, m + '.v'))]
     rc, out = coq_make([f[:-2] + '.vo' for f in gen_files], force=gen_files)
     ck.obligation('generated model compiles', rc == 0, out[-800:] if rc != 0 else ', '.join(gen_files))
-    check_props(ck, 'theories/C18/Props.v', extra_deps=['generated'])
+    proofs_ok = check_props(ck, 'theories/C18/Props.v', extra_deps=['generated'])
     thms, _, _ = parse_props(os.path.join(COQ, 'theories/C18/Props.v'))
     ck.extra_cov['refuted_statements'] = [t for t in thms if t.endswith('_refuted')]
     ck.extra_cov['partial_statements'] = [t for t in thms if t.endswith('_partial')]
@@ -675,7 +727,7 @@ def run(tier, seed, replay=None):
     run_fixed_inputs(ck, inputs, 'corpus')
     ck.extra_cov['corpus_inputs'] = len(inputs)
     rng = Rng(seed * 1000003 + 17)
-    ncase, maxlen = (360, 60) if tier == 'quick' else (6000, 120)
+    ncase, maxlen = (360, 60) if tier == 'quick' else (24000, 120)
     cases = []
     for i in range(ncase):
         kind = ('map', 'set', 'list')[i % 3] if i % 9 != 8 else 'map'
@@ -697,6 +749,7 @@ def run(tier, seed, replay=None):
     for e in errors:
         ck.obligation('model-evaluation', False, e)
     agree = 0
+    nbad = 0
     for i, (kind, ops) in enumerate(cases):
         for o in ops:
             ck.count('op:' + o[0])
@@ -713,12 +766,27 @@ def run(tier, seed, replay=None):
         if exp == got:
             agree += 1
         else:
+            nbad += 1
+            if nbad > 3:
+                continue
             step = first_divergence(exp, got)
-            ck.disagree('generated std.%s (T-std) vs sorted-list specification' % kind,
-                        {'kind': kind, 'ops': [list(o) for o in ops[:step + 1]], 'step': step, 'op': list(ops[step]) if step < len(ops) else None},
-                        {'expected_flat': exp[:400]}, {'observed_flat': got[:400]},
-                        how='status 1 = Panic, 2 = OutOfFuel; -7 obs -8 state -9 invariant-flag per step')
+            small = shrink(kind, ops[:step + 1])
+            exp_s = SPECS[kind](small)
+            got_s = evaluate([(kind, small)], 'shrunk')[0].get(0)
+            inp = {'kind': kind, 'ops': [list(o) for o in small]}
+            how = 'status 1 = Panic, 2 = OutOfFuel; -7 obs -8 state -9 invariant-flag per step; ./check C18 --replay <this file>'
+            if proofs_ok:
+                # the theorems still hold of this very model: then the Python specification / the printing of terms is at fault
+                ck.disagree('generated std.%s (T-std) vs sorted-list specification' % kind, inp,
+                            {'expected_flat': exp_s[:400]}, {'observed_flat': (got_s or [])[:400]}, how=how)
+            else:
+                # the proofs no longer check against the regenerated model AND the model deviates from the
+                # specification on this input: a failing input of the property itself
+                ck.property_failure('std.%s deviates from the finite-%s specification (operation %d of a generated sequence, shrunk)'
+                                    % (kind, kind, step), inp, expected={'flat': exp_s[:400]},
+                                    observed={'flat': (got_s or [])[:400]}, how=how)
     ck.extra_cov['sequences_agreeing_with_spec'] = agree
+    ck.extra_cov['sequences_deviating_from_spec'] = nbad
     if cases:
         ck.sample({'kind': cases[0][0], 'ops': [list(o) for o in cases[0][1][:12]]})
         big = max(cases, key=lambda c: len(c[1]))
